@@ -14,8 +14,9 @@ Definition sv := Svc.
 Definition rl := Role.
 Definition ky := Key.
 Definition mkent := Ent.
-Definition mksp k key cert cv node period : srcspec :=
-  {| sp_kind := k; sp_key := key; sp_cert := cert; sp_cv := cv; sp_node := node; sp_period := period |}.
+Definition mksp k key cert cv node period scv viaimp : srcspec :=
+  {| sp_kind := k; sp_key := key; sp_cert := cert; sp_cv := cv; sp_node := node; sp_period := period;
+     sp_scv := scv; sp_imp := viaimp |}.
 
 
 (* string table of the generators' alphabets (mirrors harness/c11_names.json): keeps case files small *)
@@ -212,8 +213,10 @@ Definition oT0 := Some (ACats []).
 Definition oG0 := Some (AReg None None []).
 (* t0, universe, ORDER in which the query set is put after every step (indices into [queries U]; [] = the
    listed order), steps.  The order matters: a lookup on an MDQ entity that is not cached fetches it. *)
-Definition case := (Z * list string * list nat * list cstep)%type.
-Definition c_t0 (c : case) : Z := fst (fst (fst c)).
+Definition case := (Z * list (Z * Z * Z) * list string * list nat * list cstep)%type.
+Definition c_t0 (c : case) : Z := fst (fst (fst (fst c))).
+(* the daylight-saving gaps of the zone the implementation ran in (Model.f_gaps; [] for most cases) *)
+Definition c_gaps (c : case) : list (Z * Z * Z) := snd (fst (fst (fst c))).
 Definition c_uni (c : case) : list string := snd (fst (fst c)).
 Definition c_order (c : case) : list nat := snd (fst c).
 Definition ordered (U : list string) (order : list nat) : list query :=
@@ -240,7 +243,7 @@ Fixpoint unfold_obs (prev : list answer) (steps : list cstep) : list answer :=
 
 Definition observed (c : case) : list answer := unfold_obs [] (snd c).
 Definition history (c : case) : list op := expand (c_uni c) (c_order c) (snd c).
-Definition model_out (c : case) : list answer := run cur (init (c_t0 c)) (history c).
+Definition model_out (c : case) : list answer := run (in_zone (c_gaps c)) (init (c_t0 c)) (history c).
 
 Definition agrees (c : case) : bool := answers_eqb (model_out c) (observed c).
 (* the property, evaluated on what the IMPLEMENTATION answered *)
@@ -255,8 +258,17 @@ Definition holds (c : case) : bool := Nat.eqb (verdict c) 0.
      6 an inline source given as list-style item (text, cert) is never verified
      7 an EntitiesDescriptor MDQ answer that is expired / lacks a required attribute escapes as TooOld / MustValueError
    All seven are repaired in /repo (status "fixed"): they are still recognised, so that a regression is
-   reported with its class. *)
-Definition cls (c : case) : nat := let v := verdict c in if Nat.leb v 7 then v else 0.
+   reported with its class.
+     8 (open) the process zone has a daylight-saving gap, the implementation did exactly what the faithful model
+       does WITH that gap, and that fails the zone-free reference: since the model without gaps satisfies the spec
+       on every history (c11_store_conforms), the failure is the gap's (an MDQ entry served past its freshness
+       period because add_duration went through the local calendar).  Anything else in such a case (the
+       implementation departs from the model) keeps its own class. *)
+Definition cls (c : case) : nat :=
+  match c_gaps c with
+  | _ :: _ => if agrees c then 8 else let v := verdict c in if Nat.leb v 7 then v else 0
+  | [] => let v := verdict c in if Nat.leb v 7 then v else 0
+  end.
 Definition run := run_cases agrees holds cls.
 
 (* debugging: first position where model and implementation differ *)
